@@ -1277,6 +1277,7 @@ struct Extractor
                 JObj po;
                 po.str("n", p->getNameAsString());
                 po.str("ty", typeStr(p->getType(), ctx));
+                po.str("cty", typeStr(p->getType().getCanonicalType(), ctx));
                 ps.push_back(po.done());
             }
             f.raw("params", jlist(ps));
